@@ -851,6 +851,39 @@ theorem C01_e2e_norm_bool_witness :
     (∀ kept ∈ (encodeChain (kfCfg false) boolFiles 0).1, inDomain boolFac kept = true ∧ noKF boolFac kept = true) := by
   decide +kernel
 
+/-! ### component expansion ON (reading (ii) of the property; audit X3): STATED, NOT PROVED -/
+
+/-- the field numbers of message `m` that are destinations of a component of some field of that message -/
+def compDestsOf (fac : Fit.DecApi.Factory) (m : Nat) : List Nat :=
+  (fac.filter (·.mesgNum == m)).flatMap fun e => e.info.comps.map (·.fieldNum)
+
+/-- a message decoded with expansion ON against the same record decoded with expansion off: after deleting the fields marked
+expanded, the same fields in the same order with the same attributes, and the same values except in fields that are
+destinations of a component of the message -/
+def OnMinusExpanded (fac : Fit.DecApi.Factory) (on off : Fit.DecApi.Msg) : Prop :=
+  on.header = off.header ∧ on.num = off.num ∧ on.devs = off.devs ∧
+  AllMatch (fun (f g : Fit.DecApi.DField) => f.num = g.num ∧ f.bt = g.bt ∧ f.known = g.known ∧ f.isBool = g.isBool ∧
+      f.array = g.array ∧ ((compDestsOf fac off.num).contains g.num = false → f.value = g.value))
+    (on.fields.filter (!·.expanded)) off.fields
+
+/-- **the expansion-on corollary (DESIGN §3 C01 reading (ii)), as a statement about the decoder-API model — NOT PROVED.** For
+every byte stream and every factory with an acyclic component graph that puts no components on file_id / field_description /
+developer_data_id: the `Next` / `Decode` loop with component expansion ON ends as the loop with expansion off does and returns
+the same sequences, message by message equal after deleting the fields marked expanded, except the values of component
+destinations (`OnMinusExpanded`); with `C01_e2e_actual_exact` this gives the round trip under expansion ON.
+What it needs and is not done here: (1) an invariant of `Fit.DecApi.expandAll` in the style of `C05_untouched` (C05's theorems
+are about the other expansion model, `Fit.Expand.decodeTail`, which has the real scale / offset arithmetic and sub-fields;
+`Fit.DecApi` has scale-1 components and no sub-fields); (2) a simulation of the decoder with expansion on by the decoder with
+expansion off through every function of the record loop (they differ only in `noteAcc`, the expansion step and the
+accumulator). On the REAL code the reading is tied for the standard factory by the `px=1` lines of family `rte2e` (default
+decoder, expansion ON, against the model's expansion-off answer with destinations masked). -/
+def C01_e2e_expansion_on : Prop :=
+  ∀ (o : Fit.DecApi.Opts) (bytes : List Nat), o.bo = false → o.ml = false → o.dl = false → Fit.DecApi.FacOK o.fac →
+    (∀ e ∈ o.fac, e.mesgNum = 0 ∨ e.mesgNum = 206 ∨ e.mesgNum = 207 → e.info.comps = []) → (∀ b ∈ bytes, b < 256) →
+    (decodeChain { o with exp := true } bytes).2 = (decodeChain { o with exp := false } bytes).2 ∧
+    AllMatch (fun (f g : Fit.DecApi.Fit) => f.hdr = g.hdr ∧ f.crc = g.crc ∧ AllMatch (OnMinusExpanded o.fac) f.msgs g.msgs)
+      (decodeChain { o with exp := true } bytes).1 (decodeChain { o with exp := false } bytes).1
+
 /-! ### the value layer, stated on its own -/
 
 /-- **What comes back does not depend on the byte order.** For every well-formed value aligned with a base type, both
